@@ -108,7 +108,9 @@ class PythonParserGenerator(IndentPrintMixin, NodeWalker):
             if isinstance(p, int | float):
                 return str(p)
             else:
-                return repr(p.split('::')[0])
+                # note: whole, as the model passes it: 'Type::Base'
+                #   tells the model builder the bases of the node class
+                return repr(p)
 
         self.reset_counters()
         params = kwparams = ''
